@@ -43,9 +43,7 @@ impl Number {
 
                 Integer(negated)
             }
-            // an int literal is lexed without its sign, and 2147483648 alone only fits a bigint:
-            // `-2147483648` is the one negation of a bigint that spells an int
-            BigInt(x) if x == "2147483648" => Integer(negated(x)),
+            // (the literal `-2147483648` is an int: the parser sees that it is spelled without a suffix)
             BigInt(x) => BigInt(negated(x)),
             Float(x) => Float(match x.strip_prefix('-') {
                 Some(magnitude) => magnitude.to_owned(),
